@@ -40,6 +40,16 @@ try:
             out["suite_tail"] = o[-600:]
         rc, o = run(["cargo", "test", "--offline", "--test", "demo"] + rel)
         out["demo_fails_with"] = rc != 0
+        if rc == 0 and not release:
+            # some demonstrations need overflow checks off
+            rc, o = run(["cargo", "test", "--offline", "--release", "--test", "demo"])
+            if rc != 0:
+                out["demo_fails_with"] = True
+                out["needs_release"] = True
+                subprocess.run(["git", "apply", "-R", "--whitespace=nowarn", patch], cwd=root)
+                rc3, o3 = run(["cargo", "test", "--offline", "--release", "--test", "demo"])
+                out["demo_passes_without_release"] = rc3 == 0
+                subprocess.run(["git", "apply", "--whitespace=nowarn", patch], cwd=root)
         os.remove(os.path.join(root, "tests", "demo.rs"))
         env2 = dict(os.environ, VERIF_REPO=root, VERIF_EVIDENCE_DIR=os.path.join(tmp, "evidence"))
         fired = {}
